@@ -632,3 +632,509 @@ contract(C + 'derive_secret', variants=_ds_variants,
          prop=PROP,
          doc='derive_secret == HKDF-Expand-Label(secret, label, Transcript-Hash (of the empty string when no transcript is given), '
              'Hash.length)')
+
+
+# ---------------------------------------------------------------------------
+# HandshakeHashes (transcript hashes) and the SSLv3 Finished / CertificateVerify digest (RFC 6101 section 5.6.8/5.6.9):
+#   md5_hash = MD5(master_secret + pad2 + MD5(handshake_messages + Sender + master_secret + pad1))      pad = 48 bytes
+#   sha_hash = SHA(master_secret + pad2 + SHA(handshake_messages + Sender + master_secret + pad1))      pad = 40 bytes
+#   pad1 = 0x36 ..., pad2 = 0x5c ...;  the digest is md5_hash + sha_hash
+
+def ssl3_digest(alg, npad, transcript, master, sender):
+    inner = H(alg, S.cat(transcript, sender, master, S.cat([0x36] * npad)))
+    return H(alg, S.cat(master, S.cat([0x5c] * npad), inner))
+
+
+def digest_ssl_spec(ns, hh, master, sender):
+    return S.cat(ssl3_digest('md5', 48, ns.f(ns.f(hh, '_handshakeMD5'), 'fed'), master, sender),
+                 ssl3_digest('sha1', 40, ns.f(ns.f(hh, '_handshakeSHA'), 'fed'), master, sender))
+
+
+def hh_unchanged(ns, hh):
+    return S.And(*[ns.f(ns.f(hh, f), 'fed') == ns.old.f(ns.old.f(hh, f), 'fed') for f in _HH_FIELD.values()])
+
+
+contract(HHQ + 'HandshakeHashes.digestSSL',
+         params={'self': hh_obj(), 'masterSecret': T.bytes(), 'label': T.bytes()},
+         result=T.bytes(),
+         ensures=lambda ns: S.And(ns.result == digest_ssl_spec(ns.old, ns.self, ns.masterSecret, ns.label),
+                                  S.len_(ns.result) == 36, hh_unchanged(ns, ns.self)),
+         raises={}, prop=PROP,
+         doc='digestSSL == MD5(ms+pad2+MD5(transcript+sender+ms+pad1)) + SHA1(ms+pad2+SHA1(transcript+sender+ms+pad1)) with 48/40 '
+             'pad bytes; the running transcript hashes are not disturbed')
+
+contract(HHQ + 'HandshakeHashes.update',
+         params={'self': hh_obj(), 'data': T.bytes()},
+         ensures=lambda ns: S.And(*[ns.f(ns.f(ns.self, f), 'fed') == S.cat(ns.old.f(ns.old.f(ns.self, f), 'fed'), ns.data)
+                                    for f in _HH_FIELD.values()]),
+         raises={}, prop=PROP,
+         doc='update feeds the same bytes to every running hash (md5, sha1, sha224, sha256, sha384, sha512)')
+
+
+def _hh_digest_ensures(ns):
+    name = ns.digest
+    if isinstance(name, VNone):
+        want = S.cat(transcript_hash(ns.old, ns.self, 'md5'), transcript_hash(ns.old, ns.self, 'sha1'))
+    else:
+        want = transcript_hash(ns.old, ns.self, name.s)
+    return S.And(ns.result == want, hh_unchanged(ns, ns.self))
+
+
+_hhd = {a: {'self': hh_obj(), 'digest': T.const(a)} for a in ALGS}
+_hhd['default'] = {'self': hh_obj(), 'digest': T.none()}
+contract(HHQ + 'HandshakeHashes.digest', variants=_hhd, result=T.bytes(), ensures=_hh_digest_ensures, raises={}, prop=PROP,
+         doc='digest(name) == Hash_name(transcript); digest() == MD5(transcript) + SHA1(transcript)')
+
+
+# ---------------------------------------------------------------------------
+# SSLv3 MAC (RFC 6101 section 5.2.3.1):
+#   hash(MAC_write_secret + pad_2 + hash(MAC_write_secret + pad_1 + data)),  pad_1 = 0x36 x 48 (MD5) / x 40 (SHA), pad_2 = 0x5c ...
+
+def ssl3_mac(alg, key, data):
+    n = 48 if alg == 'md5' else 40
+    return H(alg, S.cat(key, S.rep(0x5c, n), H(alg, S.cat(key, S.rep(0x36, n), data))))
+
+
+def mac_ssl_obj(alg=None):
+    return T.obj(MT.MAC_SSL, ihash=T.hash(alg), ohash=T.hash(alg), digest_size=T.int(), block_size=T.int())
+
+
+def _ms_state(ns, o):
+    ih, oh = ns.f(o, 'ihash'), ns.f(o, 'ohash')
+    return ih, oh, ns.f(ih, 'fed'), ns.f(oh, 'fed')
+
+
+def _dm_alg(dm, default='sha1'):
+    """hash named by a digestmod argument of a contract variant (None -> the function's default)"""
+    if isinstance(dm, VNone):
+        return default
+    return _CTOR_ALG[id(dm.obj)]
+
+
+def _create_ensures(ns, o=None):
+    alg = _dm_alg(ns.digestmod)
+    n = 48 if alg == 'md5' else 40
+    o = ns.self if o is None else o
+    ih, oh, ifed, ofed = _ms_state(ns, o)
+    return S.And(ns.f(ih, 'alg') == alg, ns.f(oh, 'alg') == alg, ~(ih == oh),
+                 ifed == S.cat(ns.k, S.rep(0x36, n)), ofed == S.cat(ns.k, S.rep(0x5c, n)),
+                 ns.f(o, 'digest_size') == ALGS[alg][0], ns.f(o, 'block_size') == ALGS[alg][1])
+
+
+_SSL_DM = {'md5': T.py(TLH.md5), 'sha1': T.py(TLH.sha1), 'default': T.none()}
+contract(M + 'MAC_SSL.create',
+         variants={vn: {'self': T.obj(MT.MAC_SSL), 'k': T.bytes(), 'digestmod': dm} for vn, dm in _SSL_DM.items()},
+         ensures=_create_ensures, raises={}, prop=PROP,
+         doc='create(k, digestmod): inner hash primed with k + 0x36*n, outer hash with k + 0x5c*n (n = 48 for MD5, 40 for SHA-1; '
+             'SHA-1 when no digestmod is given), digest_size / block_size of the hash')
+
+contract(M + 'MAC_SSL.update',
+         params={'self': mac_ssl_obj(), 'm': T.bytes()},
+         ensures=lambda ns: (lambda new, old: S.And(new[2] == S.cat(old[2], ns.m), new[3] == old[3]))(
+             _ms_state(ns, ns.self), _ms_state(ns.old, ns.self)),
+         raises={}, prop=PROP, doc='update appends to the inner hash only')
+
+
+def _copy_ensures(ns):
+    r = ns.result
+    ih, oh, ifed, ofed = _ms_state(ns, r)
+    sih, soh, sifed, sofed = _ms_state(ns, ns.self)
+    oih, ooh, oifed, oofed = _ms_state(ns.old, ns.self)
+    return S.And(~(r == ns.self), ~(ih == sih), ~(oh == soh), ~(ih == oh),        # fresh, unshared objects
+                 ifed == oifed, ofed == oofed, sifed == oifed, sofed == oofed,
+                 VBool(algv(ns.f(ih, 'alg')) == algv(ns.old.f(oih, 'alg'))),
+                 VBool(algv(ns.f(oh, 'alg')) == algv(ns.old.f(ooh, 'alg'))),
+                 ns.f(r, 'digest_size') == ns.old.f(ns.self, 'digest_size'),
+                 ns.f(r, 'block_size') == ns.old.f(ns.self, 'block_size'))
+
+
+contract(M + 'MAC_SSL.copy',
+         params={'self': T.obj(MT.MAC_SSL, ihash=T.hash(), ohash=T.hash(), digest_size=T.int(), block_size=T.int(),
+                               digestmod=T.opaque())},
+         ensures=_copy_ensures, raises={}, prop=PROP,
+         doc='copy() is a new object with forked inner/outer hashes in the same state; the original is unchanged')
+
+
+def _digest_ensures(ns):
+    ih, oh, ifed, ofed = _ms_state(ns, ns.self)
+    oih, ooh, oifed, oofed = _ms_state(ns.old, ns.self)
+    return S.And(ns.result == H(ns.old.f(ooh, 'alg'), S.cat(oofed, H(ns.old.f(oih, 'alg'), oifed))),
+                 ifed == oifed, ofed == oofed)
+
+
+contract(M + 'MAC_SSL.digest',
+         params={'self': mac_ssl_obj()},
+         result=T.bytes(), ensures=_digest_ensures, raises={}, prop=PROP,
+         doc='digest() == Hash(outer-fed + Hash(inner-fed)) and leaves both running hashes untouched')
+
+contract(M + 'createMAC_SSL',
+         variants={vn: {'k': T.bytes(), 'digestmod': dm} for vn, dm in _SSL_DM.items()},
+         ensures=lambda ns: _create_ensures(ns, ns.result), raises={}, prop=PROP,
+         doc='createMAC_SSL(k, digestmod) returns a fresh SSLv3 MAC object keyed with k (state as after MAC_SSL.create)')
+
+_HMAC_DM = {'md5': T.py(TLH.md5), 'sha1': T.py(TLH.sha1), 'sha256': T.py(TLH.sha256), 'sha384': T.py(TLH.sha384)}
+
+
+def _createhmac_ensures(ns):
+    alg = _dm_alg(ns.digestmod)
+    r = ns.result
+    return S.And(ns.f(r, 'key') == hkey(alg, ns.k), S.len_(ns.f(r, 'fed')) == 0,
+                 ns.f(r, 'digest_size') == ALGS[alg][0], ns.f(r, 'block_size') == ALGS[alg][1])
+
+
+contract(M + 'createHMAC',
+         variants={vn: {'k': T.bytes(), 'digestmod': dm} for vn, dm in _HMAC_DM.items()},
+         ensures=_createhmac_ensures, raises={}, prop=PROP,
+         doc='createHMAC(k, H) returns an HMAC-H object keyed with k, nothing fed, digest_size/block_size of H '
+             '(its digest() is HMAC-H(k, data fed) by the model of hmac.HMAC)')
+
+
+# life cycle of the SSLv3 MAC object == the RFC 6101 MAC of everything fed
+def _ssl_mac_lifecycle(alg, dm):
+    def body(api):
+        st = api.st
+        k = api.make('k', T.bytes())
+        a = api.make('a', T.bytes())
+        b = api.make('b', T.bytes())
+        for o in api.call(M + 'createMAC_SSL', [k, lift_py(dm)], st):
+            assert o.kind == 'normal', o.kind
+            mac = o.val
+            for o2 in api.call(M + 'MAC_SSL.update', [mac, a], o.st):
+                for o3 in api.call(M + 'MAC_SSL.copy', [mac], o2.st):
+                    cp = o3.val
+                    for o4 in api.call(M + 'MAC_SSL.update', [cp, b], o3.st):
+                        for o5 in api.call(M + 'MAC_SSL.digest', [cp], o4.st):
+                            for o6 in api.call(M + 'MAC_SSL.digest', [mac], o5.st):
+                                assert o5.kind == 'normal' and o6.kind == 'normal'
+                                api.oblige(o6.st, 'copy-digest==ssl3-mac(k, a+b)', o5.val == ssl3_mac(alg, k, S.cat(a, b)))
+                                api.oblige(o6.st, 'original-digest==ssl3-mac(k, a)', o6.val == ssl3_mac(alg, k, a))
+                                api.oblige(o6.st, 'digest-length', S.len_(o5.val) == ALGS[alg][0])
+    return body
+
+
+for _alg, _dm in (('md5', TLH.md5), ('sha1', TLH.sha1)):
+    scenario('MAC_SSL-lifecycle[%s]' % _alg, PROP,
+             doc='createMAC_SSL(k, %s); update(a); copy(); copy.update(b): copy.digest() == SSLv3-MAC(k, a+b) and the original '
+                 'still digests to SSLv3-MAC(k, a) (RFC 6101 5.2.3.1)' % _alg)(_ssl_mac_lifecycle(_alg, _dm))
+
+
+# ---------------------------------------------------------------------------
+# calc_key: which function, which hash and which seed for (version, PRF hash of the suite, label)
+#   SSLv3  (RFC 6101 5.6.9, 6.1, 6.2.2):  finished -> digestSSL(master, 'CLNT' / 'SRVR');  master secret -> PRF_SSL(pre, cr + sr);
+#                                         key expansion -> PRF_SSL(master, sr + cr)
+#   TLS 1.0/1.1 (RFC 2246 / 4346):        PRF = P_MD5 xor P_SHA1;  transcript hash = MD5 + SHA1
+#   TLS 1.2 (RFC 5246 5, 7.4.9, 8.1, 6.3): PRF = P_SHA256, P_SHA384 for the suites that say so;  transcript hash = that hash
+#   master secret:  PRF(pre, "master secret", client_random + server_random)
+#   key expansion:  PRF(master, "key expansion", server_random + client_random)
+#   finished:       PRF(master, "client finished" / "server finished", Hash(handshake_messages))
+#   extended master secret (RFC 7627 4): PRF(pre, "extended master secret", session_hash)
+
+L_CF, L_SF, L_KE, L_MS, L_EMS = (b'client finished', b'server finished', b'key expansion', b'master secret',
+                                 b'extended master secret')
+
+
+def is_lit(x, b):
+    """x is the byte string b (length and elements); x may be a python bytes constant"""
+    if isinstance(x, bytes):
+        return VBool(z3.BoolVal(x == b))
+    return S.And(S.len_(x) == len(b), *[x[i] == b[i] for i in range(len(b))])
+
+
+def _in_suites(cs, suites):
+    return S.Or(*[cs == s for s in suites])
+
+
+def calc_key_allowed(version, label):
+    four = S.Or(is_lit(label, L_CF), is_lit(label, L_SF), is_lit(label, L_KE), is_lit(label, L_MS))
+    return S.Or(S.And(version == (3, 0), four),
+                S.And(S.Or(version == (3, 1), version == (3, 2), version == (3, 3)), S.Or(four, is_lit(label, L_EMS))))
+
+
+def calc_key_spec(ns, out, version, secret, cipher_suite, label, hh, cr, sr, n):
+    """ns: state in which the transcript hashes of `hh` are read (entry state); label: VSeq or python bytes"""
+    lbl = bytes_(label) if isinstance(label, bytes) else label
+    th = lambda alg: transcript_hash(ns, hh, alg)
+    if isinstance(label, bytes):
+        # fixed label: only the rows of that label are stated (the other arguments may be absent)
+        if label in (L_KE, L_MS):
+            hh = None
+        else:
+            cr = sr = S.empty()
+    if hh is None:
+        th = lambda alg: S.empty()
+    tls10 = S.Or(version == (3, 1), version == (3, 2))
+    tls12 = version == (3, 3)
+    s384 = _in_suites(cipher_suite, CipherSuite.sha384PrfSuites)
+    fin = S.Or(is_lit(label, L_CF), is_lit(label, L_SF))
+    ems = is_lit(label, L_EMS)
+    ke, ms = is_lit(label, L_KE), is_lit(label, L_MS)
+    cases = []
+    # SSLv3
+    if hh is not None:
+        cases.append(S.implies(S.And(version == (3, 0), is_lit(label, L_CF)),
+                               out == digest_ssl_spec(ns, hh, secret, bytes_(b'CLNT'))))
+        cases.append(S.implies(S.And(version == (3, 0), is_lit(label, L_SF)),
+                               out == digest_ssl_spec(ns, hh, secret, bytes_(b'SRVR'))))
+    cases.append(S.implies(S.And(version == (3, 0), ke), is_prfssl(out, secret, S.cat(sr, cr), n)))
+    cases.append(S.implies(S.And(version == (3, 0), ms), is_prfssl(out, secret, S.cat(cr, sr), n)))
+    # TLS 1.0 / 1.1
+    md5sha = S.cat(th('md5'), th('sha1'))
+    cases.append(S.implies(S.And(tls10, S.Or(fin, ems)), is_prf10(out, secret, lbl, md5sha, n)))
+    cases.append(S.implies(S.And(tls10, ke), is_prf10(out, secret, lbl, S.cat(sr, cr), n)))
+    cases.append(S.implies(S.And(tls10, ms), is_prf10(out, secret, lbl, S.cat(cr, sr), n)))
+    # TLS 1.2
+    for alg, cond in (('sha384', s384), ('sha256', S.Not(s384))):
+        c = S.And(tls12, cond)
+        cases.append(S.implies(S.And(c, S.Or(fin, ems)), is_phash(out, alg, secret, S.cat(lbl, th(alg)), n)))
+        cases.append(S.implies(S.And(c, ke), is_phash(out, alg, secret, S.cat(lbl, S.cat(sr, cr)), n)))
+        cases.append(S.implies(S.And(c, ms), is_phash(out, alg, secret, S.cat(lbl, S.cat(cr, sr)), n)))
+    return S.And(*cases)
+
+
+VERSION = T.tuple(T.int(0, 255), T.int(0, 255))
+
+
+def _ck_requires(ns):
+    return S.And(ns.output_length >= 0, S.implies(ns.version == (3, 0), ns.output_length <= 416))
+
+
+contract(M + 'calc_key',
+         params={'version': VERSION, 'secret': T.bytes(), 'cipher_suite': T.int(), 'label': T.bytes(pytype='bytes'),
+                 'handshake_hashes': hh_obj(), 'client_random': T.bytes(), 'server_random': T.bytes(),
+                 'output_length': T.int()},
+         requires=_ck_requires,
+         result=T.bytes(),
+         ensures=lambda ns: S.And(calc_key_spec(ns.old, ns.result, ns.version, ns.secret, ns.cipher_suite, ns.label,
+                                                ns.handshake_hashes, ns.client_random, ns.server_random, ns.output_length),
+                                  hh_unchanged(ns, ns.handshake_hashes)),
+         raises={AssertionError: ('iff', lambda ns: S.Not(calc_key_allowed(ns.version, ns.label)))},
+         modifies=[], prop=PROP,
+         doc='calc_key picks function, hash and seed as the RFCs say for every version, suite, label, secret, randoms, transcript '
+             'and output length; AssertionError exactly for (version, label) pairs outside the table')
+
+
+# the deprecated helpers calc_key replaces: same table, fixed label / length
+def _v_in(version, vs):
+    return S.Or(*[version == v for v in vs])
+
+
+contract(M + 'calcMasterSecret',
+         params={'version': VERSION, 'cipherSuite': T.int(), 'premasterSecret': T.bytes(), 'clientRandom': T.bytes(),
+                 'serverRandom': T.bytes()},
+         result=T.bytes(),
+         ensures=lambda ns: calc_key_spec(ns.old, ns.result, ns.version, ns.premasterSecret, ns.cipherSuite, L_MS, None,
+                                          ns.clientRandom, ns.serverRandom, 48),
+         raises={AssertionError: ('iff', lambda ns: S.Not(_v_in(ns.version, [(3, 0), (3, 1), (3, 2), (3, 3)])))},
+         prop=PROP, doc='calcMasterSecret == 48 bytes of PRF_version(pre, "master secret", client_random + server_random)')
+
+contract(M + 'calcExtendedMasterSecret',
+         params={'version': VERSION, 'cipherSuite': T.int(), 'premasterSecret': T.bytes(), 'handshakeHashes': hh_obj()},
+         result=T.bytes(),
+         ensures=lambda ns: S.And(calc_key_spec(ns.old, ns.result, ns.version, ns.premasterSecret, ns.cipherSuite, L_EMS,
+                                                ns.handshakeHashes, None, None, 48),
+                                  hh_unchanged(ns, ns.handshakeHashes)),
+         raises={AssertionError: ('iff', lambda ns: S.Not(_v_in(ns.version, [(3, 1), (3, 2), (3, 3)])))},
+         prop=PROP, doc='calcExtendedMasterSecret == 48 bytes of PRF_version(pre, "extended master secret", session_hash) (RFC 7627)')
+
+
+def _fin_ensures(ns):
+    cl = calc_key_spec(ns.old, ns.result, ns.version, ns.masterSecret, ns.cipherSuite, L_CF, ns.handshakeHashes, None, None, 12)
+    sv = calc_key_spec(ns.old, ns.result, ns.version, ns.masterSecret, ns.cipherSuite, L_SF, ns.handshakeHashes, None, None, 12)
+    return S.And(S.implies(ns.isClient, cl), S.implies(S.Not(ns.isClient), sv), hh_unchanged(ns, ns.handshakeHashes))
+
+
+contract(M + 'calcFinished',
+         params={'version': VERSION, 'masterSecret': T.bytes(), 'cipherSuite': T.int(), 'handshakeHashes': hh_obj(),
+                 'isClient': T.bool()},
+         result=T.bytes(), ensures=_fin_ensures,
+         raises={AssertionError: ('iff', lambda ns: S.Not(_v_in(ns.version, [(3, 0), (3, 1), (3, 2), (3, 3)])))},
+         prop=PROP, doc='calcFinished == SSLv3 digest with CLNT/SRVR, or 12 bytes of PRF_version(master, "client|server finished", '
+                        'transcript hash)')
+
+
+# ---------------------------------------------------------------------------
+# tlslite/utils/tlshmac.py: the fallback HMAC class (used when the interpreter's hmac refuses MD5, e.g. FIPS mode)
+# against RFC 2104 section 2:   HMAC(K, text) = H((K0 xor opad) || H((K0 xor ipad) || text)),
+#   K0 = K (or H(K) when K is longer than the block size B) padded with zero bytes to B; ipad = 0x36 x B, opad = 0x5c x B.
+#
+# On this interpreter hmac works with MD5, so the class statement sits in a dead `except` branch and there is no live
+# class object.  The class is therefore built from the ClassDef node of the file on disk (same text, same line
+# numbers) in a copy of the module's namespace, and its methods are verified from that AST like any other function.
+import ast as _ast          # noqa: E402
+import os as _os            # noqa: E402
+import types as _types      # noqa: E402
+from pyvc import source as _source          # noqa: E402
+from pyvc import iters as _iters            # noqa: E402,F401  (comprehensions over sequences of symbolic length)
+
+HMQ = 'tlslite/utils/tlshmac.py:'
+
+
+def _load_fallback_hmac():
+    path = _os.path.join(_source.REPO, 'tlslite/utils/tlshmac.py')
+    tree = _source.module_ast(path)
+    nodes = [n for n in _ast.walk(tree) if isinstance(n, _ast.ClassDef) and n.name == 'HMAC']
+    if len(nodes) != 1:
+        raise RuntimeError('tlshmac.py: expected exactly one fallback class HMAC, found %d' % len(nodes))
+    cnode = nodes[0]
+    mod = _types.ModuleType('tlslite.utils.tlshmac')
+    mod.__dict__.update({k: v for k, v in TLHMAC.__dict__.items() if k not in ('HMAC', 'new')})
+    mod.__package__ = TLHMAC.__package__
+    code = compile(_ast.Module(body=[cnode], type_ignores=[]), path, 'exec')
+    exec(code, mod.__dict__)
+    cls = mod.__dict__['HMAC']
+    for fn in cnode.body:
+        if isinstance(fn, _ast.FunctionDef):
+            qual = HMQ + 'HMAC.' + fn.name
+            seg = _ast.get_source_segment(_source._SRC_CACHE[path], fn) or ''
+            _source._FS_CACHE[qual] = _source.FuncSource(qual, fn, mod, path, cls, seg)
+    return cls
+
+
+FallbackHMAC = _load_fallback_hmac() if TLHMAC.HMAC is _py_hmac.HMAC else TLHMAC.HMAC
+
+
+@builtins_model.model(object.__new__)
+def _m_object_new(ex, args, kw, st, fr, node):
+    c = args[0]
+    if isinstance(c, VPy) and isinstance(c.obj, type) and len(args) == 1:
+        return [Outcome('normal', st, st.alloc(c.obj))]
+    raise Unsupported('object.__new__(%r)' % (args,))
+
+
+def xor_(a, b):
+    return VSeq(smt.s_xor(a.t, b.t), 'byte', 'bytearray')
+
+
+def rfc2104_keys(alg, key):
+    """[(condition, K0 xor ipad, K0 xor opad)] -- by cases on whether the key is hashed first"""
+    B = ALGS[alg][1]
+    out = []
+    for cond, k in ((S.len_(key) > B, H(alg, key)), (S.len_(key) <= B, key)):
+        k0 = S.cat(k, S.rep(0, B - S.len_(k)))
+        out.append((cond, xor_(k0, S.rep(0x36, B)), xor_(k0, S.rep(0x5c, B))))
+    return out
+
+
+def is_rfc2104(out, alg, key, text):
+    return S.And(*[S.implies(cond, out == H(alg, S.cat(ko, H(alg, S.cat(ki, text)))))
+                   for cond, ki, ko in rfc2104_keys(alg, key)])
+
+
+def fhmac_obj(alg=None):
+    return T.obj(FallbackHMAC, key=T.bytes(), digestmod=T.hash(alg), block_size=T.int(), digest_size=T.int(),
+                 _o_key=T.bytes(), _context=T.hash(alg))
+
+
+def _fh_init_alg(ns):
+    dm = ns.digestmod
+    if isinstance(dm, VNone):
+        return 'md5'
+    if isinstance(dm, VStr):
+        return dm.s
+    if isinstance(dm, VPy):
+        return _CTOR_ALG[id(dm.obj)]
+    return ns.old.f(dm, 'alg').s
+
+
+def _fh_init_requires(ns):
+    dm = ns.digestmod
+    if isinstance(dm, VObj):
+        return S.len_(ns.f(dm, 'fed')) == 0           # a template hash object must be fresh
+    return VBool(z3.BoolVal(True))
+
+
+def _fh_init_ensures(ns):
+    alg = _fh_init_alg(ns)
+    ds, B = ALGS[alg]
+    ctx = ns.f(ns.self, '_context')
+    fed = ns.f(ctx, 'fed')
+    text = S.empty() if isinstance(ns.msg, VNone) else ns.msg
+    cases = []
+    for cond, ki, ko in rfc2104_keys(alg, ns.key):
+        cases.append(S.implies(cond, S.And(fed == S.cat(ki, text), ns.f(ns.self, '_o_key') == ko)))
+    return S.And(ns.f(ctx, 'alg') == alg, ns.f(ns.f(ns.self, 'digestmod'), 'alg') == alg,
+                 S.len_(ns.f(ns.f(ns.self, 'digestmod'), 'fed')) == 0, ~(ctx == ns.f(ns.self, 'digestmod')),
+                 ns.f(ns.self, 'digest_size') == ds, ns.f(ns.self, 'block_size') == B, *cases)
+
+
+_fh_variants = {}
+for _vn, _dm in (('name', T.const('md5')), ('default', T.none()), ('constructor', T.py(TLH.sha256)),
+                 ('constructor-md5', T.py(TLH.md5)), ('object', T.hash('sha1')), ('name-sha384', T.const('sha384'))):
+    _fh_variants[_vn] = {'self': T.obj(FallbackHMAC), 'key': T.bytes(), 'msg': T.none(), 'digestmod': _dm}
+    _fh_variants[_vn + ',msg'] = {'self': T.obj(FallbackHMAC), 'key': T.bytes(), 'msg': T.bytes(), 'digestmod': _dm}
+
+contract(HMQ + 'HMAC.__init__', variants=_fh_variants,
+         requires=_fh_init_requires, ensures=_fh_init_ensures, raises={}, prop=PROP,
+         doc='fallback HMAC.__init__: inner context primed with (K0 xor ipad) [+ msg], outer key K0 xor opad, K0 = key or H(key) '
+             'zero-padded to the block size (RFC 2104)')
+
+
+def _fh_state(ns, o):
+    ctx = ns.f(o, '_context')
+    return ctx, ns.f(ctx, 'fed'), ns.f(o, '_o_key'), ns.f(o, 'digestmod')
+
+
+contract(HMQ + 'HMAC.update', params={'self': fhmac_obj(), 'msg': T.bytes()},
+         ensures=lambda ns: (lambda new, old: S.And(new[1] == S.cat(old[1], ns.msg), new[2] == old[2]))(
+             _fh_state(ns, ns.self), _fh_state(ns.old, ns.self)),
+         raises={}, prop=PROP, doc='fallback HMAC.update appends to the inner context only')
+
+
+def _fh_digest_ensures(ns):
+    ctx, fed, okey, dm = _fh_state(ns, ns.self)
+    octx, ofed, ookey, odm = _fh_state(ns.old, ns.self)
+    return S.And(ns.result == H(ns.old.f(odm, 'alg'), S.cat(ns.old.f(odm, 'fed'), ookey, H(ns.old.f(octx, 'alg'), ofed))),
+                 fed == ofed, okey == ookey, ns.f(dm, 'fed') == ns.old.f(odm, 'fed'))
+
+
+contract(HMQ + 'HMAC.digest', params={'self': fhmac_obj()}, result=T.bytes(), ensures=_fh_digest_ensures,
+         raises={}, prop=PROP,
+         doc='fallback HMAC.digest == H(template-state + outer key + H(inner context)); the object is left untouched')
+
+
+def _fh_copy_ensures(ns):
+    r = ns.result
+    ctx, fed, okey, dm = _fh_state(ns, r)
+    sctx, sfed, sokey, sdm = _fh_state(ns, ns.self)
+    octx, ofed, ookey, odm = _fh_state(ns.old, ns.self)
+    return S.And(~(r == ns.self), ~(ctx == sctx), fed == ofed, sfed == ofed, okey == ookey, sokey == ookey,
+                 VBool(algv(ns.f(ctx, 'alg')) == algv(ns.old.f(octx, 'alg'))), dm == odm,
+                 ns.f(r, 'digest_size') == ns.old.f(ns.self, 'digest_size'),
+                 ns.f(r, 'block_size') == ns.old.f(ns.self, 'block_size'))
+
+
+contract(HMQ + 'HMAC.copy', params={'self': fhmac_obj()}, ensures=_fh_copy_ensures, raises={}, prop=PROP,
+         doc='fallback HMAC.copy: new object, forked inner context in the same state, same outer key; original unchanged')
+
+
+def _fh_lifecycle(alg, with_msg):
+    def body(api):
+        st = api.st
+        key = api.make('key', T.bytes())
+        m0 = api.make('m0', T.bytes())
+        a = api.make('a', T.bytes())
+        b = api.make('b', T.bytes())
+        obj = st.alloc(FallbackHMAC)
+        args = [obj, key, m0 if with_msg else VNone(), VStr(alg)]
+        for o in api.call(HMQ + 'HMAC.__init__', args, st):
+            assert o.kind == 'normal', o.kind
+            for o2 in api.call(HMQ + 'HMAC.update', [obj, a], o.st):
+                for o3 in api.call(HMQ + 'HMAC.copy', [obj], o2.st):
+                    cp = o3.val
+                    for o4 in api.call(HMQ + 'HMAC.update', [cp, b], o3.st):
+                        for o5 in api.call(HMQ + 'HMAC.digest', [cp], o4.st):
+                            for o6 in api.call(HMQ + 'HMAC.digest', [obj], o5.st):
+                                assert o5.kind == 'normal' and o6.kind == 'normal'
+                                pre = S.cat(m0, a) if with_msg else a
+                                api.oblige(o6.st, 'copy-digest==HMAC(key, [msg+]a+b)', is_rfc2104(o5.val, alg, key, S.cat(pre, b)))
+                                api.oblige(o6.st, 'original-digest==HMAC(key, [msg+]a)', is_rfc2104(o6.val, alg, key, pre))
+                                api.oblige(o6.st, 'digest-length', S.len_(o5.val) == ALGS[alg][0])
+    return body
+
+
+for _alg in ('md5', 'sha256', 'sha384'):
+    for _wm in (False, True):
+        scenario('fallback-HMAC-lifecycle[%s%s]' % (_alg, ',msg' if _wm else ''), PROP,
+                 doc='HMAC(key, %sdigestmod=%s); update(a); c = copy(); c.update(b): c.digest() == RFC 2104 HMAC(key, ..a+b) and the '
+                     'original still digests to HMAC(key, ..a), for keys shorter than, equal to and longer than the block size'
+                     % ('msg, ' if _wm else '', _alg))(_fh_lifecycle(_alg, _wm))
